@@ -11,7 +11,7 @@ ENGINE = 'E1'
 TECHNIQUE = 'bounded exhaustive enumeration (full product look x atmosphere x twist x bullet data x result mode), every row of every result recomputed from its primitives with independent Miller/Litz and lapse-rate formulas'
 RULE = ('cells = look {0,+-20,45 deg} x atmosphere {ICAO, ICAO 5000 ft, 1000 ft/27 inHg/100 F/50 %, vacuum at 5000 ft/-10 C} x twist {12,-8,0 in} x bullet data '
         '{weight+diameter+length, no length, no weight, no diameter} x mode {plain 50-yd rows, extra rows, rows of an incomplete trajectory, '
-        'full step trace}; every row is checked; non-trivial = cell with look != 0 or non-ICAO atmosphere or twist != 0 (distinct cells counted)')
+        'full step trace}; every row is checked; reuse cells = every ordered pair of 8 (atmosphere, mv, bullet data, twist) variants fired in a row with one calculator; non-trivial = cell with look != 0 or non-ICAO atmosphere or twist != 0 (distinct cells counted)')
 ASSUMPTIONS = ['Mach band: variation of the speed of sound over +-(30 ft + one step) (documented shortcut) + 1e-4',
                'energy constant accepted within 2e-4 (450400 vs w/(2 g 7000))', 'with no bullet weight either no drift or the Litz formula with Sg=0 is accepted',
                'angle of interpolated rows is bracketed by the neighbouring integration points']
@@ -155,7 +155,44 @@ def rows(cell):
     return {'v': out, 'n': len(R), 'nt': cell if nontrivial else None, 'obs': [mode, bullet, tw != 0], 'extra': {'rows_checked': len(R)}}
 
 
-PARTS = {'rows': rows}
+def reuse(cell):
+    """one long-lived calculator used for two shots in a row that share bullet and twist but differ in air / muzzle velocity / bullet data:
+    the second result must still follow the formulas (nothing derived per shot may be carried over)"""
+    import py_ballisticcalc as pb
+    U = pb.Unit
+    (atmo1, mv1, bullet1, tw1), (atmo2, mv2, bullet2, tw2) = cell
+    calc = make_calc()
+    first = _shot(0.0, atmo1, tw1, bullet1, mv1)
+    try:
+        calc.fire(first, U.Yard(300), U.Yard(100))
+    except pb.RangeError:
+        pass
+    second = _shot(0.0, atmo2, tw2, bullet2, mv2)
+    second0 = _shot(0.0, atmo2, 0.0, bullet2, mv2)
+    R = calc.fire(second, U.Yard(600), U.Yard(100)).trajectory
+    R0 = make_calc().fire(second0, U.Yard(600), U.Yard(100)).trajectory
+    out = []
+    w, d, l = BULLETS[bullet2]
+    at = second.atmo
+    vacuum = (at.pressure >> U.InHg) == 0
+    S = 0.0 if vacuum else miller(tw2, w, d, l, mv2, at.temperature >> U.Fahrenheit, at.pressure >> U.InHg)
+    for i, (r, r0) in enumerate(zip(R, R0)):
+        sd = (r.windage >> U.Foot) - (r0.windage >> U.Foot)
+        exp = (1 if tw2 > 0 else -1) * 1.25 * (S + 1.2) * r.time ** 1.83 / 12 if (tw2 and d and l) else 0.0
+        ok = abs(sd - exp) <= 1e-9 * max(1.0, abs(exp)) + 1e-12
+        if (bullet2 == 'noweight' or vacuum) and abs(sd) <= 1e-12:
+            ok = True
+        if not ok:
+            out.append({'msg': f'calculator first used for {cell[0]} then for {cell[1]}: row {i} spin drift {sd!r} ft, Litz/Miller for the SECOND shot give {exp!r} ft (Sg={S:.4f})', 'key': None})
+            break
+        e_ref = w * (r.velocity >> U.FPS) ** 2 / 450400
+        if abs((r.energy >> U.FootPound) - e_ref) > 2e-4 * max(1e-9, e_ref):
+            out.append({'msg': f'calculator first used for {cell[0]} then for {cell[1]}: row {i} energy {r.energy >> U.FootPound!r}, weight of the SECOND bullet gives {e_ref!r}', 'key': None})
+            break
+    return {'v': out, 'n': 2, 'nt': cell if cell[0] != cell[1] else None, 'obs': [cell[0][2], cell[1][2]]}
+
+
+PARTS = {'rows': rows, 'reuse': reuse}
 
 
 def plan(tier):
@@ -164,4 +201,7 @@ def plan(tier):
     cells = [list(c) for c in itertools.product(looks, list(ATMOS), [12.0, -8.0, 0.0], list(BULLETS), modes)]
     if tier == 'quick':
         cells = [c for c in cells if not (c[4] == 'trace' and (c[3] != 'full' or c[0] in (-20.0,)))]
-    return [('rows', cells)]
+    variants = [['icao', 2750.0, 'full', 12.0], ['hot', 2750.0, 'full', 12.0], ['icao5k', 2200.0, 'full', 12.0], ['icao', 2750.0, 'nolength', 12.0],
+                ['icao', 2750.0, 'noweight', 12.0], ['icao', 2750.0, 'full', -8.0], ['icao', 2750.0, 'full', 0.0], ['vac5k', 2750.0, 'full', 12.0]]
+    ru = [[a, b] for a in variants for b in variants]
+    return [('rows', cells), ('reuse', ru)]
